@@ -112,10 +112,10 @@ Definition run_pool_suite (cs : list pool_case) :=
    ("RESULT", "C13.pool_smallest_free", bad pool_spec_ok (fun c => show_hits (pc_hits c)) cs)].
 
 (* ------------------------------------------------------------ atoms and kinds *)
-Record atom_case := AC { ac_a : atom; ac_sub : option N; ac_sup : option N; ac_arom : bool }.
+Record atom_case := AC { ac_a : atom; ac_sub : option N; ac_sup : option N; ac_arom : bool; ac_targets : list N }.
 Definition atom_model_ok (c : atom_case) : bool :=
   opt_eqb N.eqb (Some (subvalence (ac_a c))) (ac_sub c) && opt_eqb N.eqb (Some (suppressed_hydrogens (ac_a c))) (ac_sup c) &&
-  Bool.eqb (is_aromatic (akind (ac_a c))) (ac_arom c).
+  Bool.eqb (is_aromatic (akind (ac_a c))) (ac_arom c) && list_eqb N.eqb (targets (akind (ac_a c))) (ac_targets c).
 (* C17 oracle: the implementation's answers against the specification over unbounded integers *)
 Definition spec_order_sum (bs : list bond) : N := fold_right (fun b n => (order_spec (bk b) + n)%N) 0%N bs.
 Definition atom_spec_ok (c : atom_case) : bool :=
@@ -124,7 +124,8 @@ Definition atom_spec_ok (c : atom_case) : bool :=
   | AK_Aliphatic a => opt_eqb N.eqb (ac_sub c) (Some (distance (std_valences (name_aliphatic a)) (spec_order_sum (bonds (ac_a c)))))
   | AK_Aromatic a => opt_eqb N.eqb (ac_sub c) (Some (distance (std_valences (name_aromatic a)) (spec_order_sum (bonds (ac_a c)))))
   | AK_Star => opt_eqb N.eqb (ac_sub c) (Some 0%N)
-  | _ => match ac_sub c with Some _ => true | None => false end
+  | AK_Bracket _ _ _ h _ _ =>   (* from the kind's own published targets, as the implementation reports them *)
+      opt_eqb N.eqb (ac_sub c) (Some (distance (ac_targets c) (hcount_of h + spec_order_sum (bonds (ac_a c)))))
   end.
 Definition run_atom_suite (cs : list atom_case) :=
   [("RESULT", "C17.atom_hydrogens_spec", bad atom_spec_ok (fun c => show (pp_kind (akind (ac_a c))) ++ " with " ++ show_nat (List.length (bonds (ac_a c))) ++ " bonds") cs);
